@@ -45,6 +45,7 @@ func verifC17Setup(allowLocalhop bool) *verifC17Rig {
 	r := &verifC17Rig{fwt: &verifC17Fw{}}
 	dispatch.InitializeFWThreads([]dispatch.FWThread{r.fwt})
 	fw.Threads = make([]*fw.Thread, 1)
+	fw.NumFwThreads = 1 // as the executor does: one dispatch entry per configured thread
 	for i := 0; i < 2; i++ {
 		ls := face.MakeNullLinkService(face.MakeNullTransport())
 		face.FaceTable.Add(ls)
